@@ -66,15 +66,21 @@ def check(prog, run):
                        "(set_result | set_exception | cancel), re-arms itself, or is the not-yet-last arm of the counter test", 6)
     for outer_name in ("unwrap_future", "gather_futures"):
         outer = prog.get_func(TP, outer_name)
+        # the future this function hands back: a local bound to Future() that it returns (whatever it is called)
+        created = {t.id for x in own_nodes(outer.node) if isinstance(x, ast.Assign) and isinstance(x.value, ast.Call)
+                   and isinstance(x.value.func, ast.Name) and x.value.func.id == "Future" for t in x.targets if isinstance(t, ast.Name)}
+        returned = {x.value.id for x in own_nodes(outer.node) if isinstance(x, ast.Return) and isinstance(x.value, ast.Name)}
+        fut_names = created & returned
+        shapes.require(bool(fut_names), "C08.R3: the future returned by %s was not found" % outer_name)
         for n, cb in outer.nested.items():
             if not _registered_as_callback(outer, n):
                 continue
             run.looked_at(cb)
             counter = _nonlocals(cb)
 
-            def ev(x, n=n):
+            def ev(x, n=n, fut_names=fut_names):
                 if isinstance(x, ast.Call) and isinstance(x.func, ast.Attribute):
-                    if x.func.attr in COMPLETE and isinstance(x.func.value, ast.Name) and x.func.value.id == "outer":
+                    if x.func.attr in COMPLETE and isinstance(x.func.value, ast.Name) and x.func.value.id in fut_names:
                         return x.func.attr
                     if x.func.attr == "add_done_callback" and x.args and isinstance(x.args[0], ast.Name) and x.args[0].id == n:
                         return "rearm"
@@ -112,18 +118,28 @@ def check(prog, run):
     loops = [n for n in gf.node.body if isinstance(n, ast.For)]
     shapes.require(len(loops) >= 2, "C08.R4: gather_futures loops not found")
     part = loops[0]
-    aliases = {}
-    for n in gf.node.body:
-        if isinstance(n, ast.Assign) and isinstance(n.value, ast.Attribute) and n.value.attr == "append" and isinstance(n.targets[0], ast.Name):
-            aliases[n.targets[0].id] = ast.unparse(n.value.value)
+    from ..canon import Canon
+    gcn = Canon(gf.node)
+    # roles by data flow, not by name: the registration loop hands a nested callback to add_done_callback of each element
+    # of the *pending* list; the callback's nonlocal that it increments is the *counter*; what the counter is compared
+    # with is the *target*
+    reg = loops[-1]
+    regs = [x for x in ast.walk(reg) if isinstance(x, ast.Call) and isinstance(x.func, ast.Attribute) and x.func.attr == "add_done_callback"
+            and isinstance(x.func.value, ast.Name) and isinstance(reg.target, ast.Name) and x.func.value.id == reg.target.id
+            and x.args and isinstance(x.args[0], ast.Name) and x.args[0].id in gf.nested]
+    shapes.require(len(regs) == 1, "C08.R4: registration of the completion callback not found in gather_futures")
+    of = gf.nested[regs[0].args[0].id]
+    pending_name = gcn.text(reg.iter)
+    counters = sorted(nm for nm in _nonlocals(of) if any(isinstance(x, ast.AugAssign) and isinstance(x.target, ast.Name) and x.target.id == nm
+                                                          for x in own_nodes(of.node)))
+    shapes.require(len(counters) == 1, "C08.R4: completion counter of %s not found" % of.qualname)
+    counter = counters[0]
+    r.instance("roles: pending list `%s`, callback %s, counter `%s`" % (pending_name, of.name, counter))
 
     def pev(x):
-        if isinstance(x, ast.Call):
-            if isinstance(x.func, ast.Name) and aliases.get(x.func.id) == "pending":
-                return "pend"
-            if isinstance(x.func, ast.Attribute) and x.func.attr == "append" and ast.unparse(x.func.value) == "pending":
-                return "pend"
-        if isinstance(x, ast.AugAssign) and isinstance(x.target, ast.Name) and x.target.id == "done" and isinstance(x.op, ast.Add):
+        if isinstance(x, ast.Call) and gcn.func_text(x) == "%s.append" % pending_name:
+            return "pend"
+        if isinstance(x, ast.AugAssign) and isinstance(x.target, ast.Name) and x.target.id == counter and isinstance(x.op, ast.Add):
             return "count"
         return None
     normal, _ = event_paths(None, pev, body=part.body, may_raise=lambda n: None)
@@ -133,35 +149,34 @@ def check(prog, run):
             run.report(r, "%s:gather_futures:partition(%s)" % (TP, ">".join(seq)), gf.where(part),
                        "an input is %s in the partition loop: the completion count can never equal (or prematurely equals) the target"
                        % ("both counted and awaited" if len(seq) > 1 else "neither counted nor awaited"))
-    reg = loops[-1]
     r.instance("registration loop `%s`" % norm_stmt(reg))
-    ok = ast.unparse(reg.iter) == "pending" and any(
-        isinstance(x, ast.Call) and isinstance(x.func, ast.Attribute) and x.func.attr == "add_done_callback"
-        and ast.unparse(x.func.value) == reg.target.id and x.args and ast.unparse(x.args[0]) == "on_finish" for x in ast.walk(reg))
-    if not ok:
-        run.report(r, "%s:gather_futures:registration" % TP, gf.where(reg), "on_finish is not registered on exactly the pending futures")
-    tdef = [n for n in gf.node.body if isinstance(n, ast.Assign) and ast.unparse(n.targets[0]) == "target_count"]
-    r.instance("target `%s`" % (norm_stmt(tdef[0]) if tdef else None))
-    if not tdef or not (isinstance(tdef[0].value, ast.Call) and ast.unparse(tdef[0].value.func) == "len" and ast.unparse(tdef[0].value.args[0]) == ast.unparse(part.iter)):
-        run.report(r, "%s:gather_futures:target" % TP, gf.where(tdef[0] if tdef else gf.node), "target_count is not len() of the iterated list")
-    of = gf.nested.get("on_finish")
-    shapes.require(of is not None, "C08.R4: on_finish not found")
+    if not isinstance(reg.iter, ast.Name):
+        run.report(r, "%s:gather_futures:registration" % TP, gf.where(reg), "the completion callback is not registered on exactly the pending futures")
+    cmps = [x for x in own_nodes(of.node) if isinstance(x, ast.Compare) and len(x.ops) == 1 and isinstance(x.ops[0], (ast.Eq, ast.NotEq, ast.GtE))
+            and any(isinstance(y, ast.Name) and y.id == counter for y in (x.left, x.comparators[0]))]
+    shapes.require(len(cmps) == 1, "C08.R4: comparison of the counter with its target not found in %s" % of.qualname)
+    other = cmps[0].comparators[0] if isinstance(cmps[0].left, ast.Name) and cmps[0].left.id == counter else cmps[0].left
+    tval = gcn.expr(other)
+    r.instance("target `%s`" % " ".join(ast.unparse(tval).split()))
+    if not (isinstance(tval, ast.Call) and isinstance(tval.func, ast.Name) and tval.func.id == "len" and tval.args
+            and " ".join(ast.unparse(tval.args[0]).split()) == gcn.text(part.iter)):
+        run.report(r, "%s:gather_futures:target" % TP, gf.where(cmps[0]), "the completion target is not len() of the iterated list")
 
     def cev(x):
-        if isinstance(x, ast.AugAssign) and isinstance(x.target, ast.Name) and x.target.id == "done":
+        if isinstance(x, ast.AugAssign) and isinstance(x.target, ast.Name) and x.target.id == counter:
             return "inc"
-        if isinstance(x, ast.Compare) and any(isinstance(y, ast.Name) and y.id == "done" for y in ast.walk(x)):
+        if isinstance(x, ast.Compare) and any(isinstance(y, ast.Name) and y.id == counter for y in ast.walk(x)):
             return "cmp"
         return None
     normal, raised = event_paths(of.node, cev)
     for seq in sorted(normal | raised):
         core = [e for e in seq if e in ("inc", "cmp")]
-        r.instance("on_finish counter events %s" % core)
+        r.instance("%s counter events %s" % (of.name, core))
         if "cmp" not in core:
             continue   # a path that never consults the counter (failure exit) need not count
         if core.count("inc") != 1 or core.index("cmp") < core.index("inc"):
             run.report(r, "%s:gather_futures.on_finish:counter(%s)" % (TP, ">".join(core)), of.where(),
-                       "a path of on_finish increments the counter %d times / compares before incrementing" % core.count("inc"))
+                       "a path of %s increments the counter %d times / compares before incrementing" % (of.name, core.count("inc")))
 
     # ---- R5 atomic counter update
     r = run.rule("R5", "a nonlocal written in a done-callback is updated by one augmented assignment whose operand has no call", 1)
@@ -187,45 +202,49 @@ def check(prog, run):
                        "gets a result slot, and results are patched through zip(index list, gathered)", 3)
     gv = prog.get_func(AIO, "AsyncIORuntime.gather_values")
     run.looked_at(gv)
-    al = {}
-    for n in gv.node.body:
-        if isinstance(n, ast.Assign) and isinstance(n.value, ast.Attribute) and n.value.attr == "append" and isinstance(n.targets[0], ast.Name):
-            al[n.targets[0].id] = ast.unparse(n.value.value)
+    from ..canon import Canon
+    vcn = Canon(gv.node)
     loop = [n for n in gv.node.body if isinstance(n, ast.For)]
     shapes.require(len(loop) == 1, "C08.R6: gather_values loop not found")
-
-    def gev(x):
-        if isinstance(x, ast.Call):
-            tgt = None
-            if isinstance(x.func, ast.Name) and x.func.id in al:
-                tgt = al[x.func.id]
-            elif isinstance(x.func, ast.Attribute) and x.func.attr == "append":
-                tgt = ast.unparse(x.func.value)
-            if tgt in ("pending", "pending_idx", "done"):
-                arg = ast.unparse(x.args[0]) if x.args else ""
-                return "%s(%s)" % (tgt, "index" if arg == "index" else "value")
-        return None
-    normal, _ = event_paths(None, gev, body=loop[0].body, may_raise=lambda n: None)
-    for seq in sorted(normal):
-        r.instance("gather_values iteration %s" % list(seq))
-        s = sorted(seq)
-        if s not in (["done(value)"], ["done(value)", "pending(value)", "pending_idx(index)"]):
-            run.report(r, "%s:AsyncIORuntime.gather_values:iteration(%s)" % (AIO, ">".join(seq)), gv.where(loop[0]),
-                       "an iteration performs %s: awaitables, their indices and the result slots get out of step" % list(seq))
-    aw = gv.nested.get("_await_values")
-    shapes.require(aw is not None, "C08.R6: _await_values not found")
-    txt = " ".join(ast.unparse(aw.node).split())
-    r.instance("patch loop `%s`" % txt[:120])
-    okz = False
+    # roles by data flow: the nested coroutine patches RESULT[i] = v for (i, v) in zip(INDEX, await gather(*AWAITABLES))
+    aws = [f for f in gv.nested.values() if any(isinstance(x, ast.Await) for x in ast.walk(f.node))]
+    shapes.require(len(aws) == 1, "C08.R6: the awaiting coroutine of gather_values not found")
+    aw = aws[0]
+    roles = None
     for n in own_nodes(aw.node):
-        if isinstance(n, ast.For) and isinstance(n.iter, ast.Call) and ast.unparse(n.iter.func) == "zip" and len(n.iter.args) == 2:
+        if isinstance(n, ast.For) and isinstance(n.iter, ast.Call) and ast.unparse(n.iter.func) == "zip" and len(n.iter.args) == 2 \
+                and isinstance(n.target, ast.Tuple) and len(n.target.elts) == 2:
             a0, a1 = n.iter.args
-            if ast.unparse(a0) == "pending_idx" and "gather(*pending)" in ast.unparse(a1) and isinstance(n.target, ast.Tuple):
-                i, v = [ast.unparse(e) for e in n.target.elts]
-                if any(isinstance(s2, ast.Assign) and ast.unparse(s2.targets[0]) == "done[%s]" % i and ast.unparse(s2.value) == v for s2 in n.body):
-                    okz = True
-    if not okz:
-        run.report(r, "%s:AsyncIORuntime.gather_values:patch" % AIO, aw.where(), "awaited results are not written back through zip(pending_idx, gather(*pending))")
+            stars = [x.value for x in ast.walk(a1) if isinstance(x, ast.Starred)]
+            gathered = any(isinstance(x, ast.Call) and ast.unparse(x.func).endswith("gather") for x in ast.walk(a1)) and \
+                any(isinstance(x, ast.Await) for x in ast.walk(a1))
+            i, v = [ast.unparse(e) for e in n.target.elts]
+            for s2 in n.body:
+                if isinstance(s2, ast.Assign) and isinstance(s2.targets[0], ast.Subscript) and ast.unparse(s2.targets[0].slice) == i \
+                        and ast.unparse(s2.value) == v and isinstance(a0, ast.Name) and len(stars) == 1 and isinstance(stars[0], ast.Name) and gathered:
+                    roles = {"index": a0.id, "awaitables": stars[0].id, "result": ast.unparse(s2.targets[0].value)}
+    r.instance("gather_values roles %s" % roles)
+    if roles is None:
+        run.report(r, "%s:AsyncIORuntime.gather_values:patch" % AIO, aw.where(), "awaited results are not written back through zip(index list, await gather(*awaitables))")
+    else:
+        by_list = {v: k for k, v in roles.items()}
+        idx_var = loop[0].target.elts[0].id if isinstance(loop[0].target, ast.Tuple) and isinstance(loop[0].target.elts[0], ast.Name) else None
+
+        def gev(x):
+            if isinstance(x, ast.Call):
+                ft = vcn.func_text(x)
+                if ft.endswith(".append") and ft[:-len(".append")] in by_list:
+                    arg = x.args[0] if x.args else None
+                    is_index = isinstance(arg, ast.Name) and arg.id == idx_var
+                    return "%s(%s)" % (by_list[ft[:-len(".append")]], "index" if is_index else "value")
+            return None
+        normal, _ = event_paths(None, gev, body=loop[0].body, may_raise=lambda n: None)
+        for seq in sorted(normal):
+            r.instance("gather_values iteration %s" % list(seq))
+            s_ = sorted(seq)
+            if s_ not in (["result(value)"], ["awaitables(value)", "index(index)", "result(value)"]):
+                run.report(r, "%s:AsyncIORuntime.gather_values:iteration(%s)" % (AIO, ">".join(seq)), gv.where(loop[0]),
+                           "an iteration performs %s: awaitables, their indices and the result slots get out of step" % list(seq))
 
     # ---- R7 broad handlers transfer or re-raise
     r = run.rule("R7", "every `except Exception/BaseException` in execution/runtime/** re-raises, transfers the exception object "
@@ -525,8 +544,12 @@ def check_map_value_contract(prog, run, rule_id):
         else_names = _else_names(f)
 
         def ev(n, else_names=else_names):
+            if isinstance(n, ast.Await):
+                return "src"      # obtaining the source value (may fail before `then` is reached)
             if isinstance(n, ast.Call):
                 fn = n.func
+                if isinstance(fn, ast.Attribute) and fn.attr == "result" and not n.args:
+                    return "src"
                 if isinstance(fn, ast.Name) and fn.id == "then":
                     return "then"
                 if isinstance(fn, ast.Name) and fn.id in else_names["cb"]:
@@ -560,7 +583,19 @@ def check_map_value_contract(prog, run, rule_id):
                     if isinstance(x.func, ast.Attribute) and x.func.attr == "result":
                         return "*"
             return None
-        normal, raised = event_paths(f.node, ev, branch_event=bev, may_raise=user_code_may_raise, raising_events={"then", "else"})
+        normal, raised = event_paths(f.node, ev, branch_event=bev, may_raise=user_code_may_raise, raising_events={"then", "else", "src"}, cap=14)
+
+        def attempt(seq):
+            # a failure while obtaining the source value counts as the failed attempt of `then` (whether the two are
+            # one statement `then(f.result())` or two); a successful fetch is not an event of the contract
+            out = []
+            for e in seq:
+                if e == "src":
+                    continue
+                out.append("then!" if e == "src!" else e)
+            return tuple(out)
+        normal = {attempt(q) for q in normal}
+        raised = {attempt(q) for q in raised}
         is_future_cb = any(ev(n) in COMPLETE for n in own_nodes(f.node))
         for seq in sorted(normal):
             core = [e for e in seq if not e.startswith("H:")]
@@ -628,7 +663,8 @@ def check_non_null_after_completion(prog, run, rule_id):
                     body = cb.body if isinstance(cb, ast.Lambda) else (f.nested[cb.id].node if isinstance(cb, ast.Name) and cb.id in f.nested else None)
                     if body is not None and any(isinstance(x, ast.Call) and isinstance(x.func, ast.Attribute) and x.func.attr == "_handle_non_nullable_value"
                                                 for x in ast.walk(body)) \
-                            and any(isinstance(x, ast.Call) and isinstance(x.func, ast.Attribute) and x.func.attr == "complete_value" for x in ast.walk(c.args[0])):
+                            and any(isinstance(x, ast.Call) and isinstance(x.func, ast.Attribute) and x.func.attr == "complete_value"
+                                    for x in ast.walk(boolx.path_expand(env.get(boolx.STMTS, ()), None, c.args[0], {}))):
                         ok = True
             if not ok:
                 cond = ", ".join("%s=%s" % kv for kv in sorted(env.items()) if kv[0] not in boolx.META)
